@@ -5,8 +5,11 @@ EXTENDS Naturals, Sequences, FiniteSets, SequencesExt, TLC, Json, IOUtils
 CONSTANTS MaxLen, MaxBatch
 Texts == UNION {[1..k -> {1, 2, 3, 4, 8}] : k \in 0..MaxLen} \cup {<<5, 6, 7>>, <<1, 5, 6, 7, 2>>}
 Batches == UNION {[1..n -> Texts] : n \in 1..MaxBatch}
-Cases == {[slots |-> b, g |-> g, groups |-> gr, agg |-> a, prefix |-> p, suffix |-> p] :
+\* mixed: the groupings of the batch alternate between sum and mean aggregation (starting with the opposite of agg)
+Cases == {[slots |-> b, g |-> g, groups |-> gr, agg |-> a, prefix |-> p, suffix |-> p, mixed |-> FALSE] :
              b \in Batches, g \in BOOLEAN, gr \in {"bytes", "code_points"}, a \in {"mean", "sum"}, p \in BOOLEAN}
+         \cup {[slots |-> b, g |-> TRUE, groups |-> gr, agg |-> a, prefix |-> FALSE, suffix |-> FALSE, mixed |-> TRUE] :
+             b \in {x \in Batches : Len(x) >= 2}, gr \in {"bytes", "code_points"}, a \in {"mean", "sum"}}
 VARIABLE x
 Init == x = 0 /\ ndJsonSerialize(IOEnv.OUT, SetToSeq(Cases))
 Next == UNCHANGED x
